@@ -1,13 +1,12 @@
 use std::collections::{BTreeMap, HashMap, HashSet};
 use std::hash::{Hash, Hasher};
-use std::ops::Add;
 
 use fnv::FnvHasher;
 
 use crate::data_model::Row;
 use crate::execution::{ColumnProvider, ColumnScope, ExecutionError, ExecutionResult, ExpressionTreeHash, ResultRow};
 use crate::execution::column_providers::{HashMapOwnedKeyColumnProvider, SingleColumnProvider};
-use crate::execution::expression_execution::{ExpressionExecutionEngine};
+use crate::execution::expression_execution::{EvaluationError, ExpressionExecutionEngine};
 use crate::execution::helpers::DistinctValues;
 use crate::helpers::IterExt;
 use crate::model::{Aggregate, AggregateStatement, ExpressionTree, Float, IntervalType, Value, ValueType};
@@ -467,23 +466,13 @@ impl GroupAggregator {
     pub fn update(&mut self, column_value: Value) -> ExecutionResult<Option<Value>> {
         match self {
             GroupAggregator::Sum(sum) => {
-                sum.modify_same_type_numeric_nullable(
-                    &column_value,
-                    |x, y| { *x += y },
-                    |x, y| { *x += y },
-                    |x, y| { *x = x.add(y) }
-                );
+                add_to_sum(sum, &column_value)?;
 
                 let sum = sum.clone();
                 Ok(Some(sum))
             }
             GroupAggregator::Average { sum, count } => {
-                sum.modify_same_type_numeric_nullable(
-                    &column_value,
-                    |x, y| { *x += y },
-                    |x, y| { *x += y },
-                    |x, y| { *x = x.add(y) }
-                );
+                add_to_sum(sum, &column_value)?;
                 *count += 1;
 
                 let average = sum.map_numeric(
@@ -495,31 +484,25 @@ impl GroupAggregator {
                 Ok(average)
             }
             GroupAggregator::StandardDeviation { sum, sum_square, count, is_variance } => {
-                let squared_column_value = column_value.map_numeric(
-                    |x| Some(x * x),
-                    |x| Some(x * x),
-                    |x| {
-                        if let Some(microseconds) = x.num_microseconds() {
-                            Some(IntervalType::microseconds(microseconds * microseconds))
+                let overflow = || ExecutionError::Expression(EvaluationError::Overflow);
+                let squared_column_value = match &column_value {
+                    Value::Int(x) => Value::Int(x.checked_mul(*x).ok_or_else(overflow)?),
+                    Value::Float(x) => Value::Float(Float(x.0 * x.0)),
+                    Value::Interval(x) => {
+                        let squared = if let Some(microseconds) = x.num_microseconds() {
+                            microseconds.checked_mul(microseconds).map(|value| IntervalType::microseconds(value))
                         } else {
-                            Some(IntervalType::milliseconds(x.num_milliseconds() * x.num_milliseconds()))
-                        }
+                            x.num_milliseconds().checked_mul(x.num_milliseconds()).and_then(|value| IntervalType::try_milliseconds(value))
+                        };
+
+                        Value::Interval(squared.ok_or_else(overflow)?)
                     }
-                ).unwrap_or(Value::Null);
+                    _ => Value::Null
+                };
 
-                sum.modify_same_type_numeric_nullable(
-                    &column_value,
-                    |x, y| { *x += y },
-                    |x, y| { *x += y },
-                    |x, y| { *x = x.add(y) }
-                );
+                add_to_sum(sum, &column_value)?;
 
-                sum_square.modify_same_type_numeric_nullable(
-                    &squared_column_value,
-                    |x, y| { *x += y },
-                    |x, y| { *x += y },
-                    |x, y| { *x = x.add(y) }
-                );
+                add_to_sum(sum_square, &squared_column_value)?;
 
                 *count += 1;
 
@@ -618,6 +601,20 @@ fn empty_aggregate_value(aggregate: &Aggregate) -> Value {
         Aggregate::Count(_, _) => Value::Int(0),
         _ => Value::Null
     }
+}
+
+// Adds a value to a running sum (which starts as NULL). Overflow is an error, not a panic or a wrapped sum.
+fn add_to_sum(sum: &mut Value, value: &Value) -> ExecutionResult<()> {
+    let overflow = || ExecutionError::Expression(EvaluationError::Overflow);
+    match (&mut *sum, value) {
+        (Value::Int(x), Value::Int(y)) => { *x = x.checked_add(*y).ok_or_else(overflow)?; }
+        (Value::Float(x), Value::Float(y)) => { x.0 += y.0; }
+        (Value::Interval(x), Value::Interval(y)) => { *x = x.checked_add(y).ok_or_else(overflow)?; }
+        (x @ Value::Null, Value::Int(_)) | (x @ Value::Null, Value::Float(_)) | (x @ Value::Null, Value::Interval(_)) => { *x = value.clone(); }
+        _ => {}
+    }
+
+    Ok(())
 }
 
 fn extract_having_aggregates<'a>(aggregate_statement: &'a AggregateStatement) -> ExecutionResult<Vec<(usize, &'a Aggregate)>> {
